@@ -132,6 +132,7 @@ func (r balanceRunner) execute(cmd *cobra.Command, args []string) error {
 	partition := r.Multiperiod.Partition(j.Period())
 	report := balance.NewReport(reg, partition)
 	procs := []*journal.Processor{
+		journal.Sort(),
 		check.Check(),
 		journal.ComputePrices(valuation),
 		journal.Valuate(reg, valuation),
